@@ -7,6 +7,7 @@ package main
 import (
 	"encoding/hex"
 	"math"
+	"reflect"
 	"sort"
 	"strconv"
 	"strings"
@@ -38,7 +39,7 @@ type rop struct {
 
 // newf is listed with the writes in the protocol but "never changes the state": it is addressed through
 // reads (no Mutable on the path) so that the whole op is state-preserving.
-var readOps = map[string]bool{"newf": true, "has": true, "get": true, "which": true, "range": true, "getu": true, "valid": true,
+var readOps = map[string]bool{"newf": true, "getter": true, "has": true, "get": true, "which": true, "range": true, "getu": true, "valid": true,
 	"llen": true, "lget": true, "mlen": true, "mhas": true, "mget": true, "mrange": true, "size": true, "enc": true}
 
 func (o *rop) isWrite() bool { return !readOps[o.name] }
@@ -66,7 +67,7 @@ func (o *rop) String() string {
 	s := pathString(o.path) + o.name
 	js := " " + strconv.Itoa(o.j)
 	switch o.name {
-	case "has", "get", "which", "llen", "mlen", "mrange", "clear", "mut", "newf", "lappm":
+	case "has", "get", "getter", "which", "llen", "mlen", "mrange", "clear", "mut", "newf", "lappm":
 		s += js
 	case "lget", "ltrunc":
 		s += js + " " + strconv.Itoa(o.i)
@@ -162,6 +163,53 @@ func fmtField(f *vschema.Field, v protoreflect.Value) string {
 	return fmtElem(f, v)
 }
 
+// getterTokens renders a Get(fd) token in the tokens of the `getter` op (REFLECT_PROTOCOL.md): a Go slice /
+// map has a length and no validity bit (`L<valid>:<len>` -> `L:<len>`, `P<valid>:<len>` -> `P:<len>`); scalar
+// and message tokens (`M1` = non-nil pointer = valid message) are unchanged.
+func getterTokens(tok string) string {
+	if len(tok) >= 3 && (tok[0] == 'L' || tok[0] == 'P') && (tok[1] == '0' || tok[1] == '1') && tok[2] == ':' {
+		return tok[:1] + tok[2:]
+	}
+	return tok
+}
+
+// fmtGetter: the Go value returned by a generated Get<Field>() method, in getter tokens.
+func fmtGetter(f *vschema.Field, res reflect.Value) string {
+	switch {
+	case f.Shape == vschema.Repeated:
+		return "L:" + strconv.Itoa(res.Len())
+	case f.Shape == vschema.Map:
+		return "P:" + strconv.Itoa(res.Len())
+	case f.IsMsg:
+		return "M" + validBit(!res.IsNil())
+	}
+	v := goScalarVal(res)
+	if v == nil {
+		panic("harness: getter returned an unexpected Go kind " + res.Kind().String())
+	}
+	if v.T == vval.Blob {
+		return "s" + hex.EncodeToString(v.B)
+	}
+	return v.String()
+}
+
+// callGetter calls the generated plain-Go accessor Get<GoName>() of field j on the message behind m (a nil
+// *T for an unpopulated message field reached by reads: the nil receiver).
+func (x *rmach) callGetter(m protoreflect.Message, mi, j int, f *vschema.Field) string {
+	name := ""
+	if x.getters != nil && mi < len(x.getters) && j < len(x.getters[mi]) {
+		name = x.getters[mi][j]
+	}
+	if name == "" {
+		panic("harness: no generated getter known for message " + strconv.Itoa(mi) + " field " + strconv.Itoa(j))
+	}
+	meth := reflect.ValueOf(m.Interface()).MethodByName(name)
+	if !meth.IsValid() {
+		panic("harness: method " + name + " not found")
+	}
+	return fmtGetter(f, meth.Call(nil)[0])
+}
+
 // ---- one implementation under a history ---------------------------------------------------------
 
 type rmach struct {
@@ -171,6 +219,10 @@ type rmach struct {
 	views map[string]interface{} // pathKey|j -> protoreflect.List / protoreflect.Map obtained from Mutable
 	// variant toggles the constructor used for detached messages (NewField/NewElement/NewValue vs Type().New())
 	variant int
+	// getters: per message index, per field index the name of the generated Get<GoName> method ("" = unknown).
+	// Set only on the machine running the generated code: there `getter j` calls the method; the reference
+	// machines (dynamicpb, slow reflection) render Get(fd) in getter tokens.
+	getters [][]string
 }
 
 func newMach(name string, s *vschema.Schema, root protoreflect.Message) *rmach {
@@ -391,6 +443,11 @@ func (x *rmach) exec1(op *rop) string {
 		return tf(m.Has(fd))
 	case "get":
 		return fmtField(f, m.Get(fd))
+	case "getter":
+		if x.getters != nil {
+			return x.callGetter(m, mi, op.j, f)
+		}
+		return getterTokens(fmtField(f, m.Get(fd)))
 	case "which":
 		w := m.WhichOneof(oneofOf(m, sm, op.j))
 		if w == nil {
